@@ -31,10 +31,12 @@ func bgvConfigs(tier string) []bgvu.Conf {
 		{Name: "t65537-n16", LogN: 4, QBits: 55, NQ: 3, PBits: 55, NP: 1, T: 65537},
 		{Name: "t30b-n16", LogN: 4, QBits: 55, NQ: 3, PBits: 55, NP: 1, T: t30},
 		{Name: "t60b-n16", LogN: 4, QBits: 60, NQ: 3, PBits: 60, NP: 1, T: t60, QAbove: true},
+		{Name: "t17-n64-gap8", LogN: 6, QBits: 30, NQ: 3, PBits: 30, NP: 1, T: 17},
+		{Name: "t97-n64-gap4", LogN: 6, QBits: 55, NQ: 2, PBits: 55, NP: 2, T: 97},
 	}
 	if tier == "thorough" {
 		cs = append(cs,
-			bgvu.Conf{Name: "t17-n64-gap8", LogN: 6, QBits: 30, NQ: 3, PBits: 30, NP: 1, T: 17},
+			bgvu.Conf{Name: "t17-n128-gap16", LogN: 7, QBits: 30, NQ: 3, PBits: 30, NP: 1, T: 17},
 			bgvu.Conf{Name: "t257-n64-gap1", LogN: 6, QBits: 30, NQ: 4, PBits: 30, NP: 1, T: 257},
 			bgvu.Conf{Name: "t60b-n32", LogN: 5, QBits: 60, NQ: 2, PBits: 60, NP: 1, T: bgvu.PlainModulus(5, 60), QAbove: true},
 		)
@@ -578,7 +580,7 @@ func bgvEmbedScenario(cf bgvu.Conf) engine.Scenario {
 		ntt := c.Choose(2, "ntt") == 0
 		mont := c.Bool("montgomery")
 		scaleUp := c.Bool("scaleUp")
-		target := c.Choose(3, "target") // 0 ring.Poly, 1 ringqp with P, 2 ringqp without P
+		target := c.Choose(4, "target") // 0 ring.Poly, 1 ringqp with P (top level), 2 ringqp without P, 3 ringqp with P at level 0
 		s := w.scales[c.Choose(2, "scale")*3]
 		ln := []int{n, 3, 0}[c.Choose(3, "len")]
 		v := make([]int64, ln)
@@ -605,6 +607,14 @@ func bgvEmbedScenario(cf bgvu.Conf) engine.Scenario {
 		case 1:
 			levelP = p.MaxLevelP()
 			qp := ringqp.Poly{Q: rq.NewPoly(), P: p.RingP().AtLevel(levelP).NewPoly()}
+			polQ, polP, out = qp.Q, qp.P, qp
+		case 3:
+			if p.MaxLevelP() == 0 {
+				c.Skip("parameter set has a single auxiliary prime")
+				return
+			}
+			levelP = 0
+			qp := ringqp.Poly{Q: rq.NewPoly(), P: p.RingP().AtLevel(0).NewPoly()}
 			polQ, polP, out = qp.Q, qp.P, qp
 		default:
 			qp := ringqp.Poly{Q: rq.NewPoly()}
@@ -671,10 +681,100 @@ func bgvEmbedScenario(cf bgvu.Conf) engine.Scenario {
 	}}
 }
 
+// allScalesScenario: EncodeRingT/DecodeRingT and Encode/Decode with EVERY unit of Z_t as scale (t <= 257; a spread
+// of 64 scales including the extremes for the large moduli), both element types, batched and coefficient domains,
+// full and short vectors.
+func bgvAllScalesScenario(cf bgvu.Conf) engine.Scenario {
+	name := "bgv/" + cf.Name + "/every-scale"
+	return engine.Scenario{Name: name, Bound: -1, Fn: func(c *engine.Chooser) {
+		w := getBgvWorld(cf)
+		t, n := w.t, w.n
+		signed := c.Bool("signed")
+		batched := c.Choose(2, "domain") == 0
+		level := []int{w.L, 0}[c.Choose(2, "level")]
+		var scales []uint64
+		if t <= 257 {
+			for s := uint64(1); s < t; s++ {
+				scales = append(scales, s)
+			}
+			c.Cover("bgv-every-scale", "all-units")
+		} else {
+			for i := uint64(0); i < 32; i++ {
+				scales = append(scales, 1+i, t-1-i)
+			}
+			scales = append(scales, t/2, t/2+1, t/3, 1<<20)
+			c.Cover("bgv-every-scale", "spread")
+		}
+		ringT := w.p.RingT()
+		cnt := 0
+		for _, s := range scales {
+			for _, ln := range []int{n, 3} {
+				res := make([]uint64, ln)
+				for j := range res {
+					res[j] = (uint64(j)*7 + 2 + s) % t
+				}
+				var typed interface{}
+				var want []uint64
+				if signed {
+					v := make([]int64, ln)
+					for j := range v {
+						v[j] = bgvu.Centered(res[j], t)
+					}
+					typed, want = typedI(v, t)
+				} else {
+					typed, want = typedU(res, t)
+				}
+				if batched {
+					// ring-T level
+					pT := ringT.NewPoly()
+					for j := range pT.Coeffs[0] {
+						pT.Coeffs[0][j] = uint64(j+1) % t // stale content
+					}
+					if err := w.ecd.EncodeRingT(typed, w.p.NewScale(s), pT); err != nil {
+						failD(c, "C07/bgv/EncodeRingT/error", "scale %d: %v", s, err)
+						return
+					}
+					full := make([]uint64, n)
+					copy(full, want)
+					for j := 0; j < n; j++ {
+						if got, exp := evalAt(pT.Coeffs[0], w.roots[j], t), ref.MulMod(full[j], s, t); got != exp {
+							failD(c, "C07/bgv/EncodeRingT/value", "scale %d len %d signed=%v: slot %d of the encoded polynomial evaluates to %d, want value*scale = %d", s, ln, signed, j, got, exp)
+							return
+						}
+					}
+					gotU := make([]uint64, n)
+					if err := w.ecd.DecodeRingT(pT, w.p.NewScale(s), gotU); err != nil || !bgvu.VecEq(gotU, full) {
+						failD(c, "C07/bgv/DecodeRingT/value", "scale %d len %d: DecodeRingT gives %v (err %v), want %v", s, ln, gotU, err, full)
+						return
+					}
+					gotI := make([]int64, n)
+					if err := w.ecd.DecodeRingT(pT, w.p.NewScale(s), gotI); err != nil {
+						failD(c, "C07/bgv/DecodeRingT/error", "scale %d: %v", s, err)
+						return
+					}
+					lim := int64((t + 1) / 2)
+					for j := range gotI {
+						if bgvu.I64ToT(gotI[j], t) != full[j] || gotI[j] > lim || gotI[j] < -lim {
+							failD(c, "C07/bgv/DecodeRingT/signed", "scale %d: slot %d decodes (signed) to %d, want a representative of %d within +-%d", s, j, gotI[j], full[j], lim)
+							return
+						}
+					}
+				}
+				if !w.roundTrip(c, bgvCase{batched: batched, signed: signed, level: level, scale: s}, typed, want, s%16 == 1) {
+					return
+				}
+				cnt++
+			}
+		}
+		c.Outcome(name, signed, batched, level)
+		c.Count(cnt)
+	}}
+}
+
 func bgvScenarios(tier string) []engine.Scenario {
 	var scs []engine.Scenario
 	for _, cf := range bgvConfigs(tier) {
-		scs = append(scs, bgvStructureScenario(cf), bgvShortDecodeScenario(cf), bgvProductScenario(cf), bgvEmbedScenario(cf))
+		scs = append(scs, bgvStructureScenario(cf), bgvShortDecodeScenario(cf), bgvProductScenario(cf), bgvEmbedScenario(cf), bgvAllScalesScenario(cf))
 		for _, b := range []bool{true, false} {
 			for _, s := range []bool{false, true} {
 				scs = append(scs, bgvRoundTripScenario(cf, b, s))
